@@ -396,9 +396,12 @@ def observe(tree, times, D):
   Returns (record fields, model document or None)."""
   import ttconv.imsc.reader as reader
   out = {"crashed": 0, "err": "", "obs": [], "logs": 0, "logmsgs": []}
+  from .core import AltContext, alt_for
+  size = sum(1 for _ in tree.iter()) if hasattr(tree, "iter") else 0
   with LogCapture() as cap:
     try:
-      model_doc = reader.to_model(tree)
+      with AltContext(alt_for(("imscr", size, len(times), D))) as ac:
+        model_doc = reader.to_model(tree, ac.progress)
     except Exception as ex:  # pylint: disable=broad-except
       out["crashed"] = 1
       out["err"] = type(ex).__name__ + ": " + str(ex)[:120]
